@@ -3,28 +3,39 @@ from pyvc.runner import Prop, Bounded, script_replay
 from pyvc import effects
 import contracts.edit_rules as er
 
-ALLOWED = {'edit_rules': ["open(grammar_file, 'w')"], '_create_copy': ['shutil.copytree(rule_dir, output_dir)']}
+import ast
+import os
+
+
+def only_grammar_txt_is_written(fn, calls):
+    """edit_rules(): exactly one file-system update, open(<name>, 'w'), where <name> is assigned exactly once in the function, from
+    os.path.join(config.get('rules_dir'), config.get('rule'), 'Grammar', 'grammar.txt') (whatever the variable is called)"""
+    if len(calls) != 1:
+        return False
+    c = calls[0]
+    if ast.unparse(c.func) != 'open' or len(c.args) < 2 or not isinstance(c.args[0], ast.Name) or ast.unparse(c.args[1]) != "'w'":
+        return False
+    if any(k.arg not in ('encoding', 'newline') for k in c.keywords):
+        return False
+    name = c.args[0].id
+    assigns = [n for n in ast.walk(fn) if isinstance(n, ast.Assign) and any(isinstance(t, ast.Name) and t.id == name for t in n.targets)]
+    return len(assigns) == 1 and ast.unparse(assigns[0].value) == "os.path.join(config.get('rules_dir'), config.get('rule'), 'Grammar', 'grammar.txt')"
+
+
+def only_a_plain_copytree(fn, calls):
+    """_create_copy(): exactly one file-system update, shutil.copytree(<first parameter>, <second parameter>) with no further arguments"""
+    params = [a.arg for a in fn.args.args]
+    if len(calls) != 1 or len(params) != 2:
+        return False
+    c = calls[0]
+    return ast.unparse(c.func) == 'shutil.copytree' and not c.keywords and [ast.unparse(a) for a in c.args] == params
+
+
+ALLOWED = {'edit_rules': only_grammar_txt_is_written, '_create_copy': only_a_plain_copytree}
 
 
 def fs_frame(repo):
     recs = effects.fs_write_frame(repo, 'edit_rules.py', ALLOWED, tag='fs')
-    # the one file opened for writing is Grammar/grammar.txt of the edited ruleset
-    import ast, os
-    src = open(os.path.join(repo, 'edit_rules.py'), encoding='utf-8').read()
-    tree = ast.parse(src)
-    ok = False
-    detail = 'assignment to grammar_file not found in edit_rules()'
-    for fn in ast.walk(tree):
-        if isinstance(fn, ast.FunctionDef) and fn.name == 'edit_rules':
-            assigns = [n for n in ast.walk(fn) if isinstance(n, ast.Assign) and any(isinstance(t, ast.Name) and t.id == 'grammar_file' for t in n.targets)]
-            if len(assigns) == 1:
-                txt = ast.unparse(assigns[0].value)
-                ok = txt == "os.path.join(config.get('rules_dir'), config.get('rule'), 'Grammar', 'grammar.txt')"
-                detail = '' if ok else 'grammar_file = %s' % txt
-            elif assigns:
-                detail = 'grammar_file is assigned %d times' % len(assigns)
-    recs.append({'name': 'fs.frame.edit_rules.target_is_grammar_txt', 'ok': ok, 'detail': detail, 'fn': 'edit_rules.py:edit_rules', 'site': 'edit_rules.py:edit_rules',
-                 'witness': None if ok else {'file': 'edit_rules.py', 'function': 'edit_rules', 'what': detail}})
     for r in recs:
         r['name'] = 'C20.' + r['name']
     return recs
